@@ -1,0 +1,118 @@
+//! Read-only state snapshot for the verification harness
+//! (`--cfg qcow2_rs_verif`).  Only `try_read()` is used, so taking a snapshot
+//! never waits and never perturbs caches, LRU stamps or dirty state.  It is
+//! meant to be called at quiescent points (no API call in flight); if a lock
+//! is held, `None` is returned.
+use super::*;
+use crate::meta::{Table, TableEntry};
+
+#[derive(Debug, Clone)]
+pub struct VerifSlice {
+    pub key: usize,
+    pub offset: Option<u64>,
+    pub dirty: bool,
+    pub users: usize,
+    pub bytes: Vec<u8>,
+}
+
+#[derive(Debug, Clone, Default)]
+pub struct VerifSnapshot {
+    pub hdr_l1_offset: u64,
+    pub hdr_l1_entries: usize,
+    pub hdr_reftable_offset: u64,
+    pub hdr_reftable_clusters: usize,
+
+    pub l1_offset: Option<u64>,
+    pub l1_header_entries: u32,
+    pub l1: Vec<u64>,
+    pub l1_dirty_blocks: Vec<u32>,
+
+    pub reftable_offset: Option<u64>,
+    pub reftable: Vec<u64>,
+    pub reftable_dirty_blocks: Vec<u32>,
+
+    pub l2_slices: Vec<VerifSlice>,
+    pub rb_slices: Vec<VerifSlice>,
+    pub l2_wmap_len: usize,
+    pub rb_wmap_len: usize,
+    pub l2_cache_limit: usize,
+    pub rb_cache_limit: usize,
+
+    /// (host cluster index, zeroing already started)
+    pub new_clusters: Vec<(u64, bool)>,
+    pub free_cluster_offset: u64,
+    pub need_flush: bool,
+}
+
+fn table_bytes<B: Table>(t: &B) -> Vec<u8> {
+    unsafe { std::slice::from_raw_parts(t.as_ptr(), t.byte_size()) }.to_vec()
+}
+
+impl<T: Qcow2IoOps> Qcow2Dev<T> {
+    pub fn verif_snapshot(&self) -> Option<VerifSnapshot> {
+        let mut s = VerifSnapshot::default();
+
+        {
+            let h = self.header.try_read().ok()?;
+            s.hdr_l1_offset = h.l1_table_offset();
+            s.hdr_l1_entries = h.l1_table_entries();
+            s.hdr_reftable_offset = h.reftable_offset();
+            s.hdr_reftable_clusters = h.reftable_clusters();
+        }
+        {
+            let l1 = self.l1table.try_read().ok()?;
+            s.l1_offset = l1.get_offset();
+            s.l1_header_entries = l1.verif_header_entries();
+            s.l1 = (0..l1.entries()).map(|i| l1.get(i).into_plain()).collect();
+            s.l1_dirty_blocks = l1.verif_dirty_blocks();
+        }
+        {
+            let rt = self.reftable.try_read().ok()?;
+            s.reftable_offset = rt.get_offset();
+            s.reftable = (0..rt.entries()).map(|i| rt.get(i).0).collect();
+            s.reftable_dirty_blocks = rt.verif_dirty_blocks();
+        }
+        for (key, dirty, users, e) in self.l2cache.verif_entries() {
+            let t = e.value().try_read().ok()?;
+            s.l2_slices.push(VerifSlice {
+                key,
+                offset: t.get_offset(),
+                dirty,
+                users,
+                bytes: table_bytes(&*t),
+            });
+        }
+        for (key, dirty, users, e) in self.refblock_cache.verif_entries() {
+            let t = e.value().try_read().ok()?;
+            s.rb_slices.push(VerifSlice {
+                key,
+                offset: t.get_offset(),
+                dirty,
+                users,
+                bytes: table_bytes(&*t),
+            });
+        }
+        s.l2_wmap_len = self.l2cache.verif_wmap_len();
+        s.rb_wmap_len = self.refblock_cache.verif_wmap_len();
+        s.l2_cache_limit = self.l2cache.verif_limit();
+        s.rb_cache_limit = self.refblock_cache.verif_limit();
+        {
+            let m = self.new_cluster.try_read().ok()?;
+            let mut v = Vec::new();
+            for (k, l) in m.iter() {
+                v.push((*k, *l.try_read().ok()?));
+            }
+            v.sort();
+            s.new_clusters = v;
+        }
+        s.free_cluster_offset = self.free_cluster_offset.load(Ordering::Relaxed);
+        s.need_flush = self.need_flush_meta();
+
+        Some(s)
+    }
+
+    /// Access to the backing device (if any) for the harness.
+    pub fn verif_backing(&self) -> Option<&Qcow2Dev<T>> {
+        self.backing_file.as_deref()
+    }
+}
